@@ -1,6 +1,7 @@
 """C03 - task-parallel executors equal the sequential one under every legal schedule (OpenMP executors, clang lowering, mock runtime)."""
 from .treecommon import D, ASSUME, finish
 from .. import e2
+from .C09 import DT
 
 TEXT = ('bounded symbolic execution (irsym+z3) of TbfOpenmpAlgorithm as lowered by clang (-fopenmp -fopenmp-version=45) on top of a mock of the nine libomp entry points it uses: per tree shape the task '
         'graph is run (0) undeferred, (1) fully deferred to the final taskwait in submission order, (2) fully deferred, latest ready task first, with worker ids all-0 / round-robin / reversed over 4 threads. '
@@ -9,19 +10,24 @@ TEXT = ('bounded symbolic execution (irsym+z3) of TbfOpenmpAlgorithm as lowered 
         'executor\'s as forms in the symbolic payload; the geometry checks of C02 on every operator call')
 
 OMP = dict(hooks='vf.omp_mock', extra_ir=('-fopenmp', '-fopenmp-version=45'), extra_native=('-fopenmp',))
+OMP50 = dict(hooks='vf.omp_mock', extra_ir=('-fopenmp', '-fopenmp-version=50'), extra_native=('-fopenmp',))
 
 
 def run(ctx):
     q = ctx.quick()
     S = []
-    def add(name, defines, args, tl, note='', threads=4, entry='h_c03', wrapper='w_omp.cpp', reach=(600, 601, 602)):
+    def add(name, defines, args, tl, note='', threads=4, entry='h_c03', wrapper='w_omp.cpp', reach=(600, 601, 602), omp=OMP):
         S.append(dict(name=name, wrapper=wrapper, defines=defines, entry=entry, args=args, time_limit=tl, note=note, expect_reach=reach,
-                      hook_opts=dict(omp_threads=threads, no_native_replay=True), diff=0, **OMP))
-    add('omp.d1.h5.n3', D(1, 5, 3, 1), [-3, -1, 1, -2, 0, 0], 240, 'two translation levels; sibling sets cut by group boundaries; 3 schedules x block size x mode x upper level')
+                      hook_opts=dict(omp_threads=threads, no_native_replay=True), diff=0, **omp))
+    add('omp.d1.h5.n2', D(1, 5, 2, 1), [-2, -1, 1, -2, 0, 0], 240, 'two translation levels; sibling sets cut by group boundaries; 3 schedules x block size x mode x upper level')
     add('omp.d1.h4.n2.faces', D(1, 4, 2, 0), [-2, -1, 1, -1, 0, 0], 200, '')
     add('omp.d2.h3.n3', D(2, 3, 3, 1), [-2, -1, 1, -1, 0, 0], 300, '')
     add('omp.d2.h4.n2', D(2, 4, 2, 1), [-2, -1, 0, -1, 0, 0], 300, '')
     add('omp.d3.h3.n2', D(3, 3, 2, 1), [-2, 0, 1, -1, 0, 0], 300, '')
+    add('omp-tsm.d1.h4.s2.t1', DT(1, 4, 2, 1, 1), [-2, -1, 0, -2, 0, 0], 240, 'target/source OpenMP executor vs the sequential target/source executor', entry='h_c03_tsm', wrapper='w_omp_tsm.cpp', reach=(620, 621, 622))
+    add('omp-tsm.d2.h3.s1.t1', DT(2, 3, 1, 1, 1), [-2, -1, 0, -1, 0, 0], 240, '', entry='h_c03_tsm', wrapper='w_omp_tsm.cpp', reach=(620, 621, 622))
+    add('omp50.d1.h4.n3', D(1, 4, 3, 1), [-2, -1, 1, -2, 0, 0], 240, 'OpenMP 5.0 lowering: commute = mutexinoutset (tasks on the same buffer mutually exclusive, unordered)', omp=OMP50)
+    add('omp50.d2.h3.n2', D(2, 3, 2, 1), [-2, -1, 1, -1, 0, 0], 240, '', omp=OMP50)
     if not q:
         add('omp.d1.h6.n4', D(1, 6, 4, 1), [-4, -1, 1, -2, 0, 0], 2400, '', threads=16)
         add('omp.d2.h4.n3', D(2, 4, 3, 1), [-3, -1, 1, -2, 0, 0], 3000, '')
@@ -31,7 +37,7 @@ def run(ctx):
     ctx.bounds.update(dict(trees='Dim 1-3, heights 3-5 (6 thorough), 2-3 particles (4 thorough), block sizes 1..3, both grouping modes, upper level {2,0}', threads='4 (2 and 16 in the thorough tier)',
                            schedules='undeferred; fully deferred FIFO (+ footprint race check, which by data-race freedom covers every linear extension); fully deferred latest-ready-first',
                            outside='g++/libgomp lowering (GCC passes lambda closures by reference into tasks created inside TbfMapIndexesAndBlocks callbacks: that dead-closure access is NOT visible in clang\'s lowering, which '
-                                   'captures `this` by value); OpenMP >= 5.0 meaning of `commute` (mutexinoutset; the header does not compile there, see known findings); Specx and StarPU executors (headers absent: not buildable, not encodable)'))
+                                   'captures `this` by value); Specx and StarPU executors (headers absent: not buildable, not encodable)'))
     ctx.assumptions += ASSUME + ['mock runtime implements the OpenMP 4.5 dependence rules (in / out / inout per base address, submission order); team = 1 master + worker ids',
                                  'no native replay: the verdict on a schedule is the symbolic run\'s (libgomp cannot be forced into a given schedule here)']
     e2.run_configs(ctx, S)
